@@ -177,6 +177,14 @@ class Ev:
             if s.get("k") != "Let" or s.get("init") is None:
                 continue
             init = peel(s["init"])
+            # a call of a private helper that the loader inlined: `{ let <param> = <arg>; ..; <helper body> }` - bind the
+            # parameters, then go on with the value the helper body yields
+            hops = 0
+            while init.get("k") == "Block" and init.get("e") is not None and hops < 6 and \
+                    (init.get("inlined") or all(x.get("k") == "Let" for x in init["stmts"])):
+                self.lets(init, env, mult)
+                init = peel(init["e"])
+                hops += 1
             pat = s["pat"]
             binds = list(_pat_paths(pat))
             # (code, value) = self.expression(child, ctx)
